@@ -192,7 +192,7 @@ func InlinedPaths(p *core.Prog, f *ssa.Function, o inlineOpts) []IPath {
 							for _, a := range ip.Atoms {
 								np.Atoms = append(np.Atoms, core.Atom{Cond: applySubs(liftWithEnv(rp.Env, a.Cond, x), subs[i]), Sign: a.Sign, Block: b})
 							}
-							if !core.Feasible(np.Atoms) {
+							if !feasibleX(np.Atoms) {
 								continue
 							}
 							np.Events = append(np.Events, cp.Events...)
@@ -234,7 +234,7 @@ func InlinedPaths(p *core.Prog, f *ssa.Function, o inlineOpts) []IPath {
 			for _, r := range rp.Results {
 				cur[i].Results = append(cur[i].Results, applySubsCall(r, subs[i]))
 			}
-			if core.Feasible(cur[i].Atoms) {
+			if feasibleX(cur[i].Atoms) {
 				out = append(out, cur[i])
 			}
 		}
@@ -287,4 +287,35 @@ func applySubsCall(t *core.Term, subs []valueSub) *core.Term {
 		}
 		return nil
 	})
+}
+
+// feasibleX is core.Feasible plus the nil-ness of freshly made errors: after a helper's return value has been substituted for
+// the call, `fmt.Errorf(...) == nil` is false and `nil == nil` is true.
+func feasibleX(atoms []core.Atom) bool {
+	if !core.Feasible(atoms) {
+		return false
+	}
+	for _, a := range atoms {
+		n := a.Norm()
+		t := n.Cond
+		if t.Op != "binop" || t.Name != "==" || len(t.Args) != 2 || !t.Args[1].IsConst("nil") {
+			continue
+		}
+		x := t.Args[0]
+		switch {
+		case x.IsConst("nil"):
+			if !n.Sign {
+				return false
+			}
+		case x.Op == "call" && (x.Name == "fmt.Errorf" || x.Name == "errors.New" || x.Name == "errors.Join" && false):
+			if n.Sign {
+				return false
+			}
+		case x.Op == "alloc":
+			if n.Sign {
+				return false
+			}
+		}
+	}
+	return true
 }
